@@ -253,6 +253,14 @@ var docSpecs = []docSpec{
 
 func checkAttrs(c *Ctx, rule, fname, where, pos string, atoms map[string]bool, got []attrM, want []attrSpec) {
 	seen := map[string]int{}
+	extra := map[string]bool{}
+	defer func() {
+		for n := range extra {
+			if seen[n] > 1 {
+				c.bad(rule+"/wiring", fname, where+": attribute "+n, pos, fmt.Sprintf("attribute %s is emitted %d times on one path: a repeated attribute is not well-formed XML", n, seen[n]))
+			}
+		}
+	}()
 	for _, a := range got {
 		n, isC := constString(a.Name)
 		if !isC {
@@ -267,7 +275,15 @@ func checkAttrs(c *Ctx, rule, fname, where, pos string, atoms map[string]bool, g
 			}
 		}
 		if sp == nil {
-			c.bad(rule+"/wiring", fname, where+": attribute "+n, c.P.InstrPos(a.Ev.Instr), "attribute "+n+" is not in the wiring table for this message")
+			// an attribute the property does not speak about (Consent, ProviderName, …): it cannot disturb the ones it does
+			// speak about as long as its name is a plain constant NCName — no prefix, no namespace declaration — and it is
+			// set through the escaping attribute API at most once (duplicates are not well-formed; checked below)
+			if plainAttrName(n) {
+				c.ok(rule+"/wiring", fname, where+": additional attribute "+n, c.P.InstrPos(a.Ev.Instr), "constant unprefixed name, value through the attribute API")
+				extra[n] = true
+			} else {
+				c.bad(rule+"/wiring", fname, where+": attribute "+n, c.P.InstrPos(a.Ev.Instr), "attribute "+n+" is not in the wiring table for this message and is not a plain unprefixed name: it can redeclare a namespace or collide with a qualified attribute")
+			}
 			continue
 		}
 		if sp.When != "" && !atoms[sp.When] {
@@ -1407,7 +1423,7 @@ func ruleC16(c *Ctx) {
 			rv, isC := t.Vals[0].(*CallV)
 			c.check(isC && rv.Callee == "(*bytes.Buffer).Bytes" && rv.Args[0].Key() == buf.Key(), "C16-R1", fname, "returns the executed buffer ["+label+"]", pos, "rv.Bytes()", "returns "+ap(t.Vals[0]))
 			for _, e := range t.St.events {
-				if e.Kind == EvCall && e != exec && e.Seq < exec.Seq+1000 && directArg(e, buf.Key()) && shortName(e.Callee) != "(*bytes.Buffer).Bytes" {
+				if e.Kind == EvCall && e != exec && e.Seq < exec.Seq+1000 && directArg(e, buf.Key()) && !bufferReadOnly[shortName(e.Callee)] {
 					c.bad("C16-R1", fname, "other writer to the output buffer ["+label+"]", c.P.InstrPos(e.Instr), shortName(e.Callee)+" also writes the output buffer: content bypasses the template escaper")
 				}
 			}
@@ -1939,4 +1955,24 @@ func derefCopies(t *Terminal, v Val) Val {
 		}
 	}
 	return v
+}
+
+// bufferReadOnly: bytes.Buffer methods that leave the content alone (Grow only reserves capacity).
+var bufferReadOnly = map[string]bool{
+	"(*bytes.Buffer).Bytes": true, "(*bytes.Buffer).Len": true, "(*bytes.Buffer).Cap": true, "(*bytes.Buffer).String": true,
+	"(*bytes.Buffer).Grow": true, "(*bytes.Buffer).Available": true,
+}
+
+// plainAttrName: an unprefixed XML name that declares no namespace.
+func plainAttrName(n string) bool {
+	if n == "" || n == "xmlns" || strings.Contains(n, ":") {
+		return false
+	}
+	for i, r := range n {
+		letter := r == '_' || (r >= 'A' && r <= 'Z') || (r >= 'a' && r <= 'z')
+		if !(letter || (i > 0 && (r == '-' || r == '.' || (r >= '0' && r <= '9')))) {
+			return false
+		}
+	}
+	return true
 }
